@@ -158,6 +158,9 @@ func (g *uniGen) val(typ string, fd *FieldDef, t *TypeRef, key string, uniq int,
 		}
 	}
 	if t.Kind == TList {
+		if g.k["nestedlists"] && t.Of.Nullable().Kind == TList && !g.c.Super.IsLeaf(t.Base()) && g.r.Chance(1, 2) {
+			return g.nestedDupList(t)
+		}
 		if g.k["scopedhops"] && t.Of.Nullable().Kind == TNamed {
 			if td := g.c.Super.Type(t.Of.Base()); td != nil && (td.Kind == KInterface || td.Kind == KUnion) && g.r.Chance(3, 4) {
 				return g.coverList(t.Of)
